@@ -6,7 +6,7 @@ export GOFLAGS=-mod=mod GOPROXY=off GOSUMDB=off GOTOOLCHAIN=local
 mkdir -p out/bin evidence
 (cd tools && go build -o ../out/bin/gx ./gx)
 ./out/bin/gx -repo /repo -lean "$PWD/lean" -out "$PWD/out"
-(cd lean && lake build GorumsV Driver driver)
+(cd lean && lake build GorumsV driver)
 cp /repo/go.sum harness/go.sum
 printf '{"Replace": {"/repo/verif_access.go": "%s/harness/overlay/verif_access.go.src"}}\n' "$PWD" > out/overlay.json
 (cd harness && go build -tags verif -overlay ../out/overlay.json -o ../out/bin/hx ./cmd/hx)
